@@ -1,6 +1,6 @@
 (** C05 - tail calls run in constant space; deep recursion ends cleanly: property theorems only. *)
 From Coq Require Import ZArith List Bool Arith.
-From ChibiV Require Import C03.Defs C03.Model C05.Spec C05.Model C05.Proofs C05.Frames.
+From ChibiV Require Import C03.Defs C03.Model C05.Spec C05.Model C05.Proofs C05.Frames C05.Apply C05.Context C05.Examples.
 Import ListNotations.
 
 (** the code generator emits TAIL-CALL exactly at the application sites R7RS 3.5 puts in tail
@@ -98,3 +98,52 @@ Theorem tail_run_bounded : forall n s s' b,
   base_of s = Some b -> run_ok n s s' -> base_of s' = Some b.
 Proof. exact Frames.tail_run_bounded. Qed.
 Print Assumptions tail_run_bounded.
+
+(** APPLY1 (the tail-only opcode behind [apply], vm.c:1351-1380) reuses the running frame exactly like
+    TAIL-CALL, whatever the length of the argument list and for every callee protocol: the callee's
+    frame starts at the same base, the stack is cut right above its header, the return information is
+    inherited, nothing below the base is touched *)
+Theorem apply1_frame_reuse : forall s proc lst r j rip rself rfp s',
+  stk s = proc :: lst :: r -> frame_info s = Some (j, rip, rself, rfp) ->
+  apply1_step s = Next s' ->
+  exists i',
+    sget (stk s') (fp s') = Some (vint i') /\
+    fp s' - i' = fp s - j /\ i' <= fp s' /\
+    length (stk s') = (fp s - j) + i' + 4 /\
+    sget (stk s') (fp s' + 1) = Some (vint rip) /\
+    sget (stk s') (fp s' + 2) = Some rself /\
+    sget (stk s') (fp s' + 3) = Some (vint rfp) /\
+    below (fp s - j) (stk s') = below (fp s - j) (stk s) /\
+    self s' = proc /\ ip s' = 0.
+Proof. exact Apply.apply1_frame_reuse. Qed.
+Print Assumptions apply1_frame_reuse.
+
+(** so a loop that iterates through [apply] keeps its frame base too *)
+Theorem apply1_keeps_base : forall s proc lst r s' b,
+  stk s = proc :: lst :: r -> base_of s = Some b -> apply1_step s = Next s' -> base_of s' = Some b.
+Proof. exact Apply.apply1_keeps_base. Qed.
+Print Assumptions apply1_keeps_base.
+
+(** "leaving the context usable" (with fixes/C05-apply-exit-top.patch): over ANY sequence of sexp_apply
+    calls on one context, each a non-tail recursion of its own depth k - out-of-stack failures
+    included -, the context's stack top stays where it was, the stack never shrinks nor exceeds the
+    maximum, and every call fails exactly when its OWN deepest stack check does not fit below
+    SEXP_MAX_STACK_SIZE: nothing that happened before has any influence *)
+Theorem oos_leaves_context_usable : forall c0 per n ks c,
+  (0 < per <= n)%Z -> (0 <= c0)%Z -> (0 <= ctop c)%Z -> (ctop c + c0 < clen c)%Z -> (clen c <= MAX_STACK_SIZE)%Z ->
+  ctop (snd (session true c0 per n c ks)) = ctop c /\
+  (clen c <= clen (snd (session true c0 per n c ks)) <= MAX_STACK_SIZE)%Z /\
+  Forall2 (fun (k : nat) (ok : bool) =>
+             ok = false <-> 0 < k /\ (ctop c + c0 + (Z.of_nat k - 1) * per + n >= MAX_STACK_SIZE)%Z)
+          ks (fst (session true c0 per n c ks)).
+Proof. exact Context.oos_leaves_context_usable. Qed.
+Print Assumptions oos_leaves_context_usable.
+
+(** F-C05-2, the pinned exit of sexp_apply (context top := top of the failed check - 1): after one
+    out-of-stack every later call on that context fails, however shallow *)
+Theorem apply_exit_pinned_refuted : forall c0 per n c k k',
+  (0 < per <= n)%Z -> (1 <= c0)%Z -> (0 <= ctop c)%Z -> (ctop c + c0 < clen c)%Z -> (clen c <= MAX_STACK_SIZE)%Z ->
+  fst (apply_deep false c0 per n c k) = false -> 0 < k' ->
+  fst (apply_deep false c0 per n (snd (apply_deep false c0 per n c k)) k') = false.
+Proof. exact Context.apply_exit_pinned_refuted. Qed.
+Print Assumptions apply_exit_pinned_refuted.
